@@ -256,7 +256,7 @@ def gen_command(rng, names):
     c = rng.choice(COMMANDS)
     if r < 0.2:
         return c
-    arg = rng.choice([gen_matcher_text(rng), rng.choice(names + ['all', 'bogus', '']), '~ ' + str(rng.randint(-3, 9)), '~ ' + rng.choice(['inf', '-inf', 'nan', '1e999', '1e3', '2.5', '9' * 5000, '0x10', '١٢']), gen_matcher_text(rng) + ' ~ ' + rng.choice(['1', 'x', '', '-1', '1 ~ 2']),
+    arg = rng.choice([gen_matcher_text(rng), rng.choice(names + ['all', 'bogus', '']), '~ ' + str(rng.randint(-3, 9)), '~ ' + rng.choice(['inf', '-inf', 'nan', '1e999', '1e3', '2.5', '9' * 5000, '0x10', '١٢', '+x', '+', '+5', '-', '--1', '1 2', ' ', '~', '5~']), gen_matcher_text(rng) + ' ~ ' + rng.choice(['1', 'x', '', '-1', '1 ~ 2']),
                       rng.choice(COMMANDS), ''.join(rng.choice(TOKENS) for _ in range(rng.randint(0, 6)))])
     line = c + rng.choice([' ', '  ', '\t', '']) + arg
     if rng.random() < 0.1:
